@@ -226,13 +226,13 @@ def run(rep: vk.Report):
                     continue
                 x = VectorVariable("q", 3, lb=0.4, ub=2.5, domain=dom)
                 y = VectorVariable("q", 3, lb=x[0].lb, ub=x[0].ub)      # the relaxation: same names and bounds, continuous
-                def build(v):
+                def build_rel(v):
                     obj = (v.sum() * -1 + 0) if linear else ((v - 0.4) ** 2).sum()
                     return Problem().minimize(obj).subject_to(v.sum() <= 2.5)
                 with warnings.catch_warnings():
                     warnings.simplefilter("ignore")
-                    a = build(x).solve(method=m)
-                    b = build(y).solve(method=m)
+                    a = build_rel(x).solve(method=m)
+                    b = build_rel(y).solve(method=m)
                 relaxed_cmp += 1
                 same = a.status == b.status and all(abs(a.values[k] - b.values[k]) < 1e-7 for k in b.values)
                 if not same:
@@ -240,7 +240,70 @@ def run(rep: vk.Report):
                     rep.violation({"kind": "relaxation", "obligation": "non-strict solve = solve of the continuous relaxation",
                                    "domain": dom, "method": m, "got": [a.status.value, a.values], "relaxed": [b.status.value, b.values]},
                                   concrete=True)
+    # the same with EVERY method on a box-only model whose unconstrained optimum lies outside the box (bound-blind methods end
+    # outside it): values, objective value and status of the non-strict solve are those of the continuous twin
+    from optyx import Variable as _Vc
+    for dom in ["integer", "binary"]:
+        for m in METHODS:
+            for linear in ([True] if m in ("linprog", "highs", "highs-ds", "highs-ipm") else [False]):
+                def twin(domain):
+                    b_ = _Vc("b", lb=0.0, ub=1.0, domain=domain)
+                    k_ = _Vc("k", lb=0.0, ub=1.0, domain=domain)
+                    y_ = _Vc("yc", lb=-1.0, ub=1.0)
+                    obj = (-2 * b_ + k_ - y_) if linear else (b_ - 1.8) ** 2 + (k_ + 0.7) ** 2 + (y_ - 0.5) ** 2 + 0.1 * b_ * y_
+                    return Problem().minimize(obj)
+                with warnings.catch_warnings():
+                    warnings.simplefilter("ignore")
+                    try:
+                        a, b = twin(dom).solve(method=m), twin("continuous").solve(method=m)
+                    except Exception:
+                        continue
+                relaxed_cmp += 1
+                same = a.status == b.status and set(a.values) == set(b.values) and all(abs(a.values[k] - b.values[k]) < 1e-7 for k in b.values) and \
+                    ((a.objective_value is None) == (b.objective_value is None)) and \
+                    (a.objective_value is None or abs(a.objective_value - b.objective_value) < 1e-7 * (1 + abs(b.objective_value)))
+                if not same:
+                    relaxed_diffs += 1
+                    rep.violation({"kind": "relaxation", "obligation": "non-strict solve = solve of the continuous relaxation (values, objective value, status), for every method",
+                                   "domain": dom, "method": m, "got": [a.status.value, a.values, a.objective_value],
+                                   "relaxed": [b.status.value, b.values, b.objective_value]}, concrete=True)
+    # ---- copies of a model (copy.copy / copy.deepcopy / a pickle round trip, as a scenario tool or a worker pool makes them) keep
+    # the declared domains: a strict solve of the copy raises for the same names, a non-strict one warns
+    import copy as _copy, pickle as _pickle
+    from optyx.core.errors import IntegerVariableError as _IVE
+    copies = copies_bad = 0
+    def strict_names(Pr, m):
+        try:
+            with warnings.catch_warnings():
+                warnings.simplefilter("ignore")
+                Pr.solve(method=m, strict=True)
+            return "no error"
+        except _IVE as ex:
+            return sorted(set(getattr(ex, "variable_names", None) or []) or [str(ex)[:200]])
+        except Exception as ex:
+            return "other: " + type(ex).__name__
+    for dom in ["integer", "binary"]:
+        for rname in ["scalar", "vector", "matrix_row", "symmetric_col"]:
+            for linear in [True, False]:
+                P0, elems = build(dom, rname, linear)
+                m = "auto" if linear else "SLSQP"
+                want = strict_names(P0, m)
+                for how, fn in (("copy.deepcopy", _copy.deepcopy), ("pickle round trip", lambda q: _pickle.loads(_pickle.dumps(q))), ("copy.copy", _copy.copy)):
+                    try:
+                        P1 = fn(P0)
+                    except Exception:
+                        continue                      # copying not supported for this object: nothing to compare
+                    copies += 1
+                    got = strict_names(P1, m)
+                    doms0 = sorted((v.name, v.domain) for v in P0.variables)
+                    doms1 = sorted((v.name, v.domain) for v in P1.variables)
+                    if got != want or doms0 != doms1:
+                        copies_bad += 1
+                        rep.violation({"kind": "copy", "obligation": "a copy of a model keeps its integer / binary declarations (strict solve raises for the same names)",
+                                       "witness": {"domain": dom, "route": rname, "linear": linear, "copied_with": how, "strict_solve_original": want,
+                                                   "strict_solve_copy": got, "domains_original": doms0, "domains_copy": doms1}}, concrete=True)
     cov = rep.coverage
+    cov["copies_of_models_checked"] = copies
     cov["evaluations"] = len(cases.terms) + relaxed_cmp
     cov["distinct_nontrivial"] = cases.nontrivial
     cov["exhaustive"] = True
